@@ -590,7 +590,12 @@ class MapMapper(Mapper):
         ):
             raise NotImplementedError("Conversion for this map is unsupported")
         if not any([additional_properties, property_names, pattern_properties]):
-            return []
+            # no schema for keys or values: the size limits still apply
+            return [
+                (k, schema[k])
+                for k in ("maxItems", "minItems")
+                if schema.get(k, None) is not None
+            ]
 
         key_type = (
             convert_to_field_code({**property_names, "type": "string"}, globals())
